@@ -201,6 +201,18 @@ func build(tier string) (kit.Space, string) {
 	}})
 	bounds = append(bounds, fmt.Sprintf("L: %d leaf variants x %d contexts", len(leaves), len(contexts)))
 
+	// ---- W
+	deg := degenerate()
+	segs = append(segs, segment{"W", int64(len(deg)), func(j int64, r *kit.Result) {
+		for _, c := range contexts[:3] {
+			p := c.wrap(deg[j].build())
+			out := check(r, p, "degenerate: "+deg[j].desc+" in "+c.name, opts{wire: true, panicsOnly: true})
+			r.Evals++
+			r.AddOutcome("W:" + out)
+		}
+	}})
+	bounds = append(bounds, fmt.Sprintf("W: %d wire-degenerate messages x 3 contexts (crash-only oracle)", len(deg)))
+
 	// ---- P
 	pg := newGrammar([]nv{symNode("x"), litNode(full[5])}, [][]string{{"a"}}, []int{0, 0, 2})
 	nTriples := len(nameMenu) * len(posMenu) * len(posMenu)
@@ -412,18 +424,6 @@ func build(tier string) (kit.Space, string) {
 		bounds = append(bounds, fmt.Sprintf("T: %d trees (%s)", total, tp.name))
 	}
 
-	// ---- W
-	deg := degenerate()
-	segs = append(segs, segment{"W", int64(len(deg)), func(j int64, r *kit.Result) {
-		for _, c := range contexts[:3] {
-			p := c.wrap(deg[j].build())
-			out := check(r, p, "degenerate: "+deg[j].desc+" in "+c.name, opts{wire: true, panicsOnly: true})
-			r.Evals++
-			r.AddOutcome("W:" + out)
-		}
-	}})
-	bounds = append(bounds, fmt.Sprintf("W: %d wire-degenerate messages x 3 contexts (crash-only oracle)", len(deg)))
-
 	var total int64
 	for _, s := range segs {
 		total += s.n
@@ -464,6 +464,7 @@ func main() {
 		},
 		Build:            build,
 		WorkerEnv:        []string{"GOMAXPROCS=2", "GOGC=400"},
+		Chunk:            8,
 		QuickDeadline:    150e9,
 		ThoroughDeadline: 900e9,
 	})
